@@ -1,6 +1,7 @@
 (** C04 — tie by translation: FixedWidthBinning._force_bin_existence_single / _cover_value / _drop_unneeded_bins as
     translated from the CURRENT source of physt/binnings.py (tools/pytrans.py -> Gen/PyFW.v). *)
-From Physt Require Import TieBase PyFW Adaptive AdaptiveProofs TieFW.
+From Physt Require Import TieBase PyFW Adaptive AdaptiveProofs TieFW TieFloat.
+From Coq Require Import PrimFloat.
 
 (** Whatever the rounding: for ANY float arithmetic whose comparisons obey four order laws (true of IEEE-754 binary64),
     whenever the code returns for a finite value, the value lies inside the edges as the code computes them:
@@ -53,3 +54,22 @@ Theorem C04_tie_array_branch_is_model : forall fuel b mn mx, 0 < f_w b -> (1 <= 
                    | r => r end)).
 Proof. exact gen_force_min_max_is_model. Qed.
 Print Assumptions C04_tie_array_branch_is_model.
+
+(** ... and in binary64 itself (Coq's primitive floats, evaluated by the kernel exactly as IEEE-754 prescribes): whenever the
+    current code returns for a finite double, the value lies inside the edges the code computes, whatever floor, ceil, the
+    products and the sums round to.  Depends on the standard library's axioms FloatAxioms.ltb_spec / leb_spec / eqb_spec
+    (specification of the primitive comparisons), listed by Print Assumptions below and named in the trusted base. *)
+Theorem C04_tie_value_covered_binary64 : forall fuel (st : @fwst float) (v : float) incl st' r,
+  pf_finite v = true ->
+  g_fw_force_bin_existence_single parith fuel st v (Some incl) = Done (st', r) ->
+  PrimFloat.ltb v (g_fw_first_edge parith st') = false /\
+  (PrimFloat.ltb (g_fw_last_edge parith st') v || (PrimFloat.eqb v (g_fw_last_edge parith st') && negb incl)) = false.
+Proof. exact force_single_covers_binary64. Qed.
+Print Assumptions C04_tie_value_covered_binary64.
+
+(** the translated code evaluated in binary64 on the input that defeated the unrepaired code (width 0.1, value 1.7, empty
+    binning): one bin starting at 16 * 0.1, exactly what physt returns *)
+Example C04_tie_binary64_example :
+  g_fw_force_bin_existence_single parith 5 (mk_fw 0%Z 0%Z (0.1)%float 0%float true false) (1.7)%float None =
+  Done (mk_fw 16%Z 1%Z (0.1)%float 0%float true false, OITuple0).
+Proof. vm_compute. reflexivity. Qed.
